@@ -32,6 +32,13 @@ type Clause struct {
 	Line int
 }
 
+// CallAssert is an obligation on the state (and arguments arg0, arg1, ...) just before a call site.
+type CallAssert struct {
+	Callee string
+	K      int
+	Cl     Clause
+}
+
 type Contract struct {
 	PkgPath  string
 	Key      string // e.g. "(*ALUImpl).runSADDU32", "memRangeOverlap"
@@ -51,6 +58,7 @@ type Contract struct {
 	LoopDec  map[int]*Expr
 	LoopMod  map[int][]*Expr
 	Unroll   map[int]bool
+	CallAssert []CallAssert // "assert-at call f k name: expr": site obligation before the k-th call of f
 	RetAssert map[int][]Clause // "assert-at return k name: expr": intermediate assertion at the k-th return statement (source order)
 	Extra    map[string][]string
 	Fn       *ssa.Function
@@ -114,7 +122,14 @@ func parseContractFile(path, pkgPath string) ([]*Contract, []*SpecFn, error) {
 			// extern <interface method> :: reason -- a method of a component outside the verified code: assumed to leave
 			// the heap of the verified packages unchanged and to return an unconstrained value
 			parts := strings.SplitN(rc.text, "::", 2)
-			sf := &SpecFn{Name: "extern:" + strings.TrimSpace(parts[0]), File: path, Line: rc.line}
+			head := strings.Fields(parts[0])
+			if len(head) == 0 {
+				return nil, nil, fail(fmt.Errorf("extern: name expected"))
+			}
+			sf := &SpecFn{Name: "extern:" + head[0], File: path, Line: rc.line}
+			if len(head) > 1 && head[1] == "fresh" {
+				sf.Lemma = true // reused flag: reference results are freshly allocated
+			}
 			if len(parts) == 2 {
 				sf.Reason = strings.TrimSpace(parts[1])
 			}
@@ -187,8 +202,29 @@ func parseContractFile(path, pkgPath string) ([]*Contract, []*SpecFn, error) {
 			cur.MayPanic = append(cur.MayPanic, rc.text)
 		case "assert-at":
 			f := strings.Fields(rc.text)
+			if len(f) >= 4 && f[0] == "call" {
+				// assert-at call <callee substring> <k> name: expr   (k-th call, in source order, whose callee name contains the substring)
+				k, err := strconv.Atoi(f[2])
+				if err != nil {
+					return nil, nil, fail(err)
+				}
+				rest := strings.TrimSpace(rc.text)
+				for _, w := range f[:3] {
+					rest = strings.TrimSpace(strings.TrimPrefix(rest, w))
+				}
+				name, src := splitLabel(rest)
+				e, err := parseExpr(src)
+				if err != nil {
+					return nil, nil, fail(err)
+				}
+				if name == "" {
+					name = "a"
+				}
+				cur.CallAssert = append(cur.CallAssert, CallAssert{Callee: f[1], K: k, Cl: Clause{Name: name, E: e, Src: src, Line: rc.line}})
+				continue
+			}
 			if len(f) < 3 || f[0] != "return" {
-				return nil, nil, fail(fmt.Errorf("assert-at: expected 'return <k> name: expr'"))
+				return nil, nil, fail(fmt.Errorf("assert-at: expected 'return <k> name: expr' or 'call <callee> <k> name: expr'"))
 			}
 			k, err := strconv.Atoi(f[1])
 			if err != nil {
